@@ -331,10 +331,11 @@ pub fn binop(m: MBin, x: V, y: V) -> Option<V> {
             MBin::Add => V::L(p.checked_add(q)?),
             MBin::Sub => V::L(p.checked_sub(q)?),
             MBin::Mul => V::L(p.checked_mul(q)?),
-            MBin::Div => V::L(if q == 0 { 0 } else { p.checked_div(q)? }),
-            MBin::Mod => V::L(if q == 0 { p } else { p.checked_rem(q)? }),
-            MBin::Shl => V::L(if q < 100 { p.checked_mul(1i128 << q.max(0))? } else { return None }),
-            MBin::Shr => V::L(if q < 100 { p.div_euclid(1i128 << q.max(0)) } else { return None }),
+            // undefined in the reference semantics: division by zero, shift counts outside 0..100
+            MBin::Div => V::L(if q == 0 { return None } else { p.checked_div(q)? }),
+            MBin::Mod => V::L(if q == 0 { return None } else { p.checked_rem(q)? }),
+            MBin::Shl => V::L(if (0..100).contains(&q) { p.checked_mul(1i128 << q)? } else { return None }),
+            MBin::Shr => V::L(if (0..100).contains(&q) { p.div_euclid(1i128 << q) } else { return None }),
             _ => return None,
         },
         _ => return None,
